@@ -1,11 +1,15 @@
+(* Executable model of Irving.scf (deterministic_matching.py:206-766): man-optimal matching by the proved
+   deferred-acceptance model, shortlists, level-wise rotation discovery with elimination bookkeeping, sparse
+   rotation poset (rules 1 and 2), rotation weights, maximum-weight closed subset by the proved min-cut
+   model (Mwcs.v), elimination in index order. No proofs here. *)
 From Coq Require Import ZArith List Bool Lia.
 Import ListNotations.
-Require Import Flow GS.
+From SCK Require Import Argsort FlowModel Mwcs GSFinal.
 
 (* ---------- helpers over nat ---------- *)
 Definition nthn (l : list nat) (i : nat) : nat := nth i l O.
-Definition nthl {A} (l : list (list A)) (i : nat) : list A := nth i l [].
-Definition memn (x : nat) (l : list nat) : bool := existsb (Nat.eqb x) l.
+Fixpoint upd {A} (l : list A) (i : nat) (x : A) : list A :=
+  match l, i with [], _ => [] | _ :: r, O => x :: r | y :: r, S j => y :: upd r j x end.
 Definition peq (a b : nat * nat) : bool := (fst a =? fst b)%nat && (snd a =? snd b)%nat.
 Definition memp (x : nat * nat) (l : list (nat * nat)) : bool := existsb (peq x) l.
 Fixpoint index_of (x : nat) (l : list nat) : option nat :=
@@ -25,9 +29,8 @@ Definition rot := list (nat * nat).
 Section Init.
 Variables (P1 P2 : list (list nat)) (M : list (nat * nat)).   (* 0-based ranks; M = [(man, woman)] *)
 Let n := length P1.
-Definition okey (x : nat) : option Z := Some (Z.of_nat x).
-Let ranked1 := map (fun row => argsort (map okey row)) P1.
-Let ranked2 := map (fun row => argsort (map okey row)) P2.
+Let ranked1 := map (fun row => argsort (map Some row)) P1.
+Let ranked2 := map (fun row => argsort (map Some row)) P2.
 Definition wife (i : nat) : nat := match find (fun p => (fst p =? i)%nat) M with Some p => snd p | None => O end.
 Definition husband (j : nat) : nat := match find (fun p => (snd p =? j)%nat) M with Some p => fst p | None => O end.
 Definition pl1_0 (i : nat) : list nat := skipn (nthn (nthl P1 i) (wife i)) (nthl ranked1 i).
@@ -163,7 +166,7 @@ Definition poset : list (list nat) :=
 End Poset.
 
 (* ---------- weights, closed subset, elimination ---------- *)
-Open Scope Z_scope.
+Local Open Scope Z_scope.
 Definition vget (V : list (list Z)) (i j : nat) : Z := nth j (nth i V []) 0.
 Definition rot_weight (V1 V2 : list (list Z)) (rt : rot) : Z :=
   let r := length rt in
@@ -173,23 +176,8 @@ Definition rot_weight (V1 V2 : list (list Z)) (rt : rot) : Z :=
       let mp := fst (nth ((i + r - 1) mod r)%nat rt (O, O)) in
       acc + (vget V1 mi wi - vget V1 mi wn) + (vget V2 wi mi - vget V2 wi mp)) (seq 0 r) 0.
 
-Definition mwcs (fuel : nat) (P : list (list nat)) (ws : list Z) : option (list nat) :=
-  let R := length P in
-  let ids := seq 0 R in
-  let node pi := map (fun rho => (Z.of_nat rho, maxsize)) (nthl P pi) ++
-                 (if nth pi ws 0 >? 0 then [(-2, nth pi ws 0)] else []) in
-  let src := flat_map (fun pi => if nth pi ws 0 <? 0 then [(Z.of_nat pi, - nth pi ws 0)] else []) ids in
-  let net : graph := (-1, src) :: (-2, []) :: map (fun pi => (Z.of_nat pi, node pi)) ids in
-  match ford_fulkerson fuel net (-1) (-2) with
-  | None => None
-  | Some (_, cut) =>
-    let seed := filter (fun pi => (nth pi ws 0 >? 0) && negb (memZ (Z.of_nat pi) cut)) ids in
-    let pass cs := fold_left (fun cs rho => if memn rho cs then cs
-                                          else if existsb (fun x => memn x cs) (nthl P rho) then rho :: cs else cs) ids cs in
-    let fix close (k : nat) (cs : list nat) := match k with O => cs | Datatypes.S k' =>
-                  let cs' := pass cs in if (length cs' =? length cs)%nat then cs else close k' cs' end in
-    Some (map Z.to_nat (sortZ (map Z.of_nat (close (Datatypes.S R) seed))))
-  end.
+(* find_maximum_weight_closed_subset is Mwcs.mwcs; the set is then used in ascending index order *)
+Definition sorted_nat (l : list nat) : list nat := map Z.to_nat (sortZ (map Z.of_nat l)).
 
 Definition elim_apply_one (rt : rot) (cur : option (list (nat * nat))) (i : nat) : option (list (nat * nat)) :=
   match cur with None => None | Some M =>
@@ -207,11 +195,10 @@ Record trace := { t_M0 : list (nat * nat); t_pl1 : list (list nat); t_pl2 : list
                   t_ws : list Z; t_S : list nat; t_out : option (list (nat * nat)) }.
 Definition irving (P1 P2 : list (list nat)) (V1 V2 : list (list Z)) (ffuel : nat) : option trace :=
   let n := length P1 in
-  let toz (P : list (list nat)) := map (map (fun r => Some (Z.of_nat r + 1))) P in
-  match gs (toz P1) (toz P2) (repeat 1 n) true true (n * n + 2 * n + 2) with
+  let tok (P : list (list nat)) : list (list okey) := map (map Some) P in
+  match gs_res_run (tok P1) (tok P2) (fun _ => 1%nat) (n * n + 2) with
   | None => None
-  | Some M0z =>
-    let M0 := map (fun p => (Z.to_nat (fst p), Z.to_nat (snd p))) M0z in
+  | Some M0 =>
     let l1 := new_pl1 P1 P2 M0 in
     let l2 := new_pl2 P1 P2 M0 in
     match find_all l1 l2 with
@@ -221,14 +208,15 @@ Definition irving (P1 P2 : list (list nat)) (V1 V2 : list (list Z)) (ffuel : nat
       let ws := map (rot_weight V1 V2) rots in
       match mwcs ffuel P ws with
       | None => None
-      | Some cs =>
+      | Some cs0 =>
+        let cs := sorted_nat cs0 in
         Some {| t_M0 := M0; t_pl1 := l1; t_pl2 := l2; t_rots := rots; t_elim := el; t_P := P; t_ws := ws;
                 t_S := cs; t_out := eliminate M0 (map (fun i => nth i rots []) cs) |}
       end
     end
   end.
 
-(* ---------- spike comparison ---------- *)
+(* ---------- comparison with the observed stages ---------- *)
 Definition lnat_eqb (a b : list nat) : bool := (length a =? length b)%nat && forallb (fun p => (fst p =? snd p)%nat) (combine a b).
 Definition llnat_eqb (a b : list (list nat)) : bool := (length a =? length b)%nat && forallb (fun p => lnat_eqb (fst p) (snd p)) (combine a b).
 Definition lp_eqb (a b : list (nat * nat)) : bool := (length a =? length b)%nat && forallb (fun p => peq (fst p) (snd p)) (combine a b).
